@@ -9,7 +9,7 @@
 use crate::util::*;
 use dicom_core::value::Value;
 use dicom_dictionary_std::{tags, uids};
-use dicom_encoding::TransferSyntaxIndex;
+use dicom_encoding::{adapters::EncodeOptions, TransferSyntaxIndex};
 use dicom_object::{FileDicomObject, InMemDicomObject};
 use dicom_pixeldata::Transcode;
 use dicom_transfer_syntax_registry::TransferSyntaxRegistry;
@@ -47,9 +47,17 @@ fn snap(o: &Obj) -> Snap {
         rows: u16_of(tags::ROWS), cols: u16_of(tags::COLUMNS), spp: u16_of(tags::SAMPLES_PER_PIXEL), ba: u16_of(tags::BITS_ALLOCATED) }
 }
 
-fn transcode_to(o: &mut Obj, ts: usize) -> Result<(), String> {
+/// encode options of a hop: (quality, effort); (None, None) goes through `transcode`, anything else
+/// through `transcode_with_options`
+pub type Opts = (Option<u8>, Option<u8>);
+
+fn transcode_to(o: &mut Obj, ts: usize, opts: Opts) -> Result<(), String> {
     let t = TransferSyntaxRegistry.get(TS[ts]).ok_or("unknown ts")?;
-    o.transcode(t).map_err(|e| e.to_string())
+    if opts == (None, None) { return o.transcode(t).map_err(|e| e.to_string()); }
+    let mut options = EncodeOptions::new();
+    options.quality = opts.0;
+    options.effort = opts.1;
+    o.transcode_with_options(t, options).map_err(|e| e.to_string())
 }
 
 fn write_read(o: &Obj) -> Result<Obj, String> {
@@ -59,9 +67,9 @@ fn write_read(o: &Obj) -> Result<Obj, String> {
 }
 
 #[derive(Debug, Clone)]
-pub struct Step { pub ts: usize, pub via_file: bool }
+pub struct Step { pub ts: usize, pub via_file: bool, pub opts: Opts }
 
-pub struct Spec { pub img: Img, pub src: usize, pub steps: Vec<Step> }
+pub struct Spec { pub img: Img, pub src: usize, pub steps: Vec<Step>, pub with_model: bool }
 
 /// Runs the path; returns the snapshot after every step (the last step is always "to ELE").
 fn run(spec: &Spec) -> Option<Result<Vec<Snap>, (Vec<Snap>, String)>> {
@@ -69,8 +77,8 @@ fn run(spec: &Spec) -> Option<Result<Vec<Snap>, (Vec<Snap>, String)>> {
     catch(move || {
         let mut o = img.to_object(TS[src]);
         let mut snaps = vec![];
-        for st in steps.iter().chain(std::iter::once(&Step { ts: 1, via_file: false })) {
-            if let Err(e) = transcode_to(&mut o, st.ts) { return Err((snaps, e)); }
+        for st in steps.iter().chain(std::iter::once(&Step { ts: 1, via_file: false, opts: (None, None) })) {
+            if let Err(e) = transcode_to(&mut o, st.ts, st.opts) { return Err((snaps, e)); }
             if st.via_file { match write_read(&o) { Ok(o2) => o = o2, Err(e) => return Err((snaps, e)) } }
             snaps.push(snap(&o));
         }
@@ -142,20 +150,38 @@ fn case_of(spec: &Spec, tag: &str) -> Case {
     };
     // ---- Coq case
     let (snaps, status): (Vec<Snap>, u8) = match &res { None => (vec![], 2), Some(Err((s, _))) => (s.clone(), 1), Some(Ok(s)) => (s.clone(), 0) };
-    let coq = format!("(({}, {}, {}, {}, {}, {}), {}, {}, {}, ({}, {}))",
+    let coq = if !spec.with_model { String::new() } else { format!("(({}, {}, {}, {}, {}, {}), {}, {}, {}, ({}, {}))",
         img.rows, img.cols, img.spp, img.ba, c_opt(if img.with_nframes { Some(img.frames.to_string()) } else { None }), c_bytes(&img.px),
         spec.src, c_list(spec.steps.iter().map(|s| format!("({}, {})", s.ts, c_bool(s.via_file)))),
-        0, status, c_list(snaps.iter().map(c_snap)));
-    let path: Vec<String> = std::iter::once(TS_NAMES[spec.src].to_string()).chain(spec.steps.iter().map(|s| format!("{}{}", TS_NAMES[s.ts], if s.via_file { "+file" } else { "" }))).collect();
-    let bucket = format!("{}/{}bit/spp{}/{}/{}", path.join(">"), img.ba, img.spp, if img.frames > 1 { "multi" } else { "single" }, if !wf { "malformed" } else if odd_frame { "odd-frame" } else { "even-frame" });
+        0, status, c_list(snaps.iter().map(c_snap))) };
+    let path: Vec<String> = std::iter::once(TS_NAMES[spec.src].to_string()).chain(spec.steps.iter().map(|s| format!("{}{}{}", TS_NAMES[s.ts], if s.via_file { "+file" } else { "" },
+        if s.opts == (None, None) { String::new() } else { format!("[q={:?},e={:?}]", s.opts.0, s.opts.1) }))).collect();
+    let frame_bytes = expected_len / img.frames.max(1) as usize;
+    let size_class = if frame_bytes >= 65535 { "/large-frame" } else { "" };
+    let opt_class = if spec.steps.iter().any(|s| s.opts != (None, None)) { "/with-options" } else { "" };
+    let plain_path: Vec<String> = std::iter::once(TS_NAMES[spec.src].to_string()).chain(spec.steps.iter().map(|s| format!("{}{}", TS_NAMES[s.ts], if s.via_file { "+file" } else { "" }))).collect();
+    let bucket = format!("{}/{}bit/spp{}/{}/{}{}{}", plain_path.join(">"), img.ba, img.spp, if img.frames > 1 { "multi" } else { "single" }, if !wf { "malformed" } else if odd_frame { "odd-frame" } else { "even-frame" }, size_class, opt_class);
     Case {
         coq,
         desc: json!({"bucket": bucket, "tag": tag, "rows": img.rows, "cols": img.cols, "samples_per_pixel": img.spp, "bits_allocated": img.ba, "frames": img.frames,
-                     "number_of_frames_present": img.with_nframes, "pixel_bytes": img.px.len(), "pixels_hex": hex(&img.px[..img.px.len().min(64)]), "path": path,
+                     "number_of_frames_present": img.with_nframes, "pixel_bytes": img.px.len(), "frame_bytes": frame_bytes, "modelled": spec.with_model, "pixels_hex": hex(&img.px[..img.px.len().min(64)]), "path": path,
                      "status": STATUS[status as usize]}),
-        key: if img.px.is_empty() { String::new() } else { format!("{:?}|{}|{}|{}|{}|{}", path, img.rows, img.cols, img.spp, img.ba, hex(&img.px)) },
+        key: if img.px.is_empty() { String::new() } else if img.px.len() > 4096 {
+            let sum = img.px.iter().fold(0u64, |a, b| a.wrapping_mul(1099511628211).wrapping_add(*b as u64));
+            format!("{:?}|{}|{}|{}|{}|{}|{:x}", path, img.rows, img.cols, img.spp, img.ba, img.px.len(), sum)
+        } else { format!("{:?}|{}|{}|{}|{}|{}", path, img.rows, img.cols, img.spp, img.ba, hex(&img.px)) },
         oracle,
     }
+}
+
+/// effort / quality classes of `EncodeOptions` (0..=100): absent, none, minimal, middle, maximal
+const OPT_POOL: &[Option<u8>] = &[None, Some(0), Some(1), Some(50), Some(100), Some(10), Some(11), Some(99)];
+
+fn pick_opts(r: &mut Rng) -> Opts {
+    if r.chance(1, 2) { return (None, None); }
+    let q = match r.below(4) { 0 => Some(0u8), 1 => Some(100), 2 => Some(r.below(101) as u8), _ => None };
+    let e = if r.chance(1, 6) { Some(r.below(256) as u8) } else { *r.pick(OPT_POOL) };
+    (q, e)
 }
 
 fn rand_img(r: &mut Rng, odd_bias: bool) -> Img {
@@ -176,25 +202,62 @@ pub fn cases(ctx: &Ctx) -> Vec<Case> {
     // ---- corpus
     let probe = Img { rows: 3, cols: 3, spp: 1, ba: 8, bs: 8, signed: false, frames: 2, px: (1..=18).collect(), rescale: None, with_nframes: true };
     for (k, steps) in [
-        vec![Step { ts: 3, via_file: true }],   // odd frames through encapsulated uncompressed and a file (DESIGN section 9)
-        vec![Step { ts: 3, via_file: false }],
-        vec![Step { ts: 4, via_file: true }],
-        vec![Step { ts: 4, via_file: false }],
-        vec![Step { ts: 2, via_file: true }],
-        vec![Step { ts: 0, via_file: false }],
-        vec![Step { ts: 3, via_file: true }, Step { ts: 4, via_file: true }],
-        vec![Step { ts: 4, via_file: false }, Step { ts: 3, via_file: false }],
+        vec![Step { ts: 3, via_file: true, opts: (None, None) }],   // odd frames through encapsulated uncompressed and a file (DESIGN section 9)
+        vec![Step { ts: 3, via_file: false, opts: (None, None) }],
+        vec![Step { ts: 4, via_file: true, opts: (None, None) }],
+        vec![Step { ts: 4, via_file: false, opts: (None, None) }],
+        vec![Step { ts: 2, via_file: true, opts: (None, None) }],
+        vec![Step { ts: 0, via_file: false, opts: (None, None) }],
+        vec![Step { ts: 3, via_file: true, opts: (None, None) }, Step { ts: 4, via_file: true, opts: (None, None) }],
+        vec![Step { ts: 4, via_file: false, opts: (None, None) }, Step { ts: 3, via_file: false, opts: (None, None) }],
     ].into_iter().enumerate() {
-        out.push(case_of(&Spec { img: probe.clone(), src: 1, steps }, &format!("corpus-{k}")));
+        out.push(case_of(&Spec { img: probe.clone(), src: 1, steps, with_model: true }, &format!("corpus-{k}")));
     }
     let one = Img { rows: 1, cols: 1, spp: 1, ba: 8, bs: 8, signed: false, frames: 1, px: vec![0xAB], rescale: None, with_nframes: false };
-    out.push(case_of(&Spec { img: one.clone(), src: 1, steps: vec![Step { ts: 3, via_file: true }] }, "corpus-1px"));
-    out.push(case_of(&Spec { img: one.clone(), src: 0, steps: vec![Step { ts: 4, via_file: true }] }, "corpus-1px-deflate"));
+    out.push(case_of(&Spec { img: one.clone(), src: 1, steps: vec![Step { ts: 3, via_file: true, opts: (None, None) }], with_model: true }, "corpus-1px"));
+    out.push(case_of(&Spec { img: one.clone(), src: 0, steps: vec![Step { ts: 4, via_file: true, opts: (None, None) }], with_model: true }, "corpus-1px-deflate"));
     let w16 = Img { rows: 1, cols: 3, spp: 1, ba: 16, bs: 16, signed: false, frames: 3, px: (1..=18).collect(), rescale: None, with_nframes: true };
-    out.push(case_of(&Spec { img: w16.clone(), src: 2, steps: vec![Step { ts: 3, via_file: true }] }, "corpus-16bit-from-EBE"));
+    out.push(case_of(&Spec { img: w16.clone(), src: 2, steps: vec![Step { ts: 3, via_file: true, opts: (None, None) }], with_model: true }, "corpus-16bit-from-EBE"));
     // malformed: pixel data shorter than the attributes say
     let short = Img { px: (1..=17).collect(), ..probe.clone() };
-    out.push(case_of(&Spec { img: short, src: 1, steps: vec![Step { ts: 3, via_file: false }] }, "corpus-short"));
+    out.push(case_of(&Spec { img: short, src: 1, steps: vec![Step { ts: 3, via_file: false, opts: (None, None) }], with_model: true }, "corpus-short"));
+    // ---- the public EncodeOptions space on a small image, every lossless target (modelled)
+    for ts in [3usize, 4] {
+        for q in [None, Some(0u8), Some(100)] {
+            for e in OPT_POOL {
+                out.push(case_of(&Spec { img: probe.clone(), src: 1, steps: vec![Step { ts, via_file: false, opts: (q, *e) }], with_model: true }, "corpus-options"));
+            }
+        }
+    }
+    // ---- large frames (oracle only: no huge literal goes to coqc): frame sizes around the 16-bit
+    // limits of block-structured codecs (65535 / 65536 / 65537+ bytes, 2^17), every effort class
+    let large: &[(u16, u16, u16, u16, u32)] = &[
+        // rows, cols, samples, bits allocated, frames
+        (255, 257, 1, 8, 1),    // 65535
+        (256, 256, 1, 8, 1),    // 65536
+        (2, 32769, 1, 8, 1),    // 65538
+        (3, 10923, 1, 16, 1),   // 65538
+        (181, 181, 1, 16, 2),   // 65522 x 2 frames
+        (128, 256, 1, 16, 2),   // 65536 x 2 frames
+        (256, 512, 1, 8, 1),    // 2^17
+        (3, 43691, 1, 8, 1),    // 2^17 + 1
+        (149, 147, 3, 8, 1),    // 65709, 3 samples
+        (256, 256, 3, 16, 1),   // 393216
+    ];
+    let n_large = if ctx.tier == Tier::Quick { large.len() * 3 } else { large.len() * OPT_POOL.len() * 2 };
+    for k in 0..n_large {
+        if out.len() >= ctx.n { break; }
+        let (rows, cols, spp, ba, frames) = large[k % large.len()];
+        let n = rows as usize * cols as usize * spp as usize * (ba as usize / 8) * frames as usize;
+        let style = r.below(3);
+        let px: Vec<u8> = (0..n).map(|i| match style { 0 => r.next() as u8, 1 => (i % 251) as u8, _ => if r.chance(1, 16) { r.next() as u8 } else { 7 } }).collect();
+        let img = Img { rows, cols, spp, ba, bs: ba, signed: false, frames, px, rescale: None, with_nframes: true };
+        // every effort class appears on every size within two runs of the size list
+        // first pass: no compression at all on every size; then the effort classes rotate over the sizes
+        let e = if k < large.len() { Some(0) } else { OPT_POOL[(k / large.len() + k) % OPT_POOL.len()] };
+        let ts = if k % 7 == 6 { 3 } else { 4 };
+        out.push(case_of(&Spec { img, src: 1, steps: vec![Step { ts, via_file: r.chance(1, 3), opts: (if r.coin() { None } else { Some(100) }, e) }], with_model: false }, "large"));
+    }
     // ---- generated
     let mut i = 0usize;
     while out.len() < ctx.n {
@@ -206,12 +269,12 @@ pub fn cases(ctx: &Ctx) -> Vec<Case> {
         }
         let src = *r.pick(&[1usize, 1, 0, 2]);
         let first = match i % 5 { 0 => 3, 1 => 4, 2 => 3, 3 => 4, _ => *r.pick(&[0usize, 1, 2]) };
-        let mut steps = vec![Step { ts: first, via_file: r.chance(1, 2) }];
-        if r.chance(1, 4) { steps.push(Step { ts: *r.pick(&[3usize, 4, 0, 2, 3, 4]), via_file: r.chance(1, 2) }); }
+        let mut steps = vec![Step { ts: first, via_file: r.chance(1, 2), opts: pick_opts(&mut r) }];
+        if r.chance(1, 4) { steps.push(Step { ts: *r.pick(&[3usize, 4, 0, 2, 3, 4]), via_file: r.chance(1, 2), opts: pick_opts(&mut r) }); }
         // 8-bit samples in an OW element written in big endian: how the stream codec lays out the
         // bytes of such a value is the data set writer/reader's business (C01), not transcoding's
         if img.ba == 8 { for s in steps.iter_mut() { if s.ts == 2 { s.via_file = false; } } }
-        out.push(case_of(&Spec { img, src, steps }, "gen"));
+        out.push(case_of(&Spec { img, src, steps, with_model: true }, "gen"));
     }
     out
 }
